@@ -208,6 +208,10 @@ def main():
             if args.verbose:
                 print("  corr-break:", o["case"].get("seed"), o["case"].get("force"), v.get("clause"), "|", str(v.get("detail"))[:200], "|", v.get("key"))
 
+    if any("model driver not built" in he["harness_error"] for he in harness_errors):
+        # the Lean driver binary is missing (only possible with --no-lean, or while another `lake build` replaces it)
+        print("INFRASTRUCTURE: model driver not built (run without --no-lean, or `cd lean && lake build lcmdriver`)")
+        return 2
     if harness_errors and len(harness_errors) > max(2, len(outs) // 10):
         # the harness itself cannot drive the implementation: the correspondence is broken
         he = harness_errors[0]
